@@ -233,19 +233,7 @@ def run(ctx) -> None:
         rets = [n for n in walk_no_nested(gt.node) if isinstance(n, ast.Return)]
         ok = len(rets) == 1 and unparse(rets[0].value) == "lvals > rvals"
         ctx.check("R4", ok, f"{eng}._is_cal_gt compares the non-None fields lexicographically with >", f"{eng}._is_cal_gt: comparison changed", unparse(rets[0]) if rets else "", loc=gt.loc())
-        # a field takes part in the comparison iff it is not None on both sides (0 is a value: week 0)
-        gcfg = cfgs.get(gt.fq)
-        gpc = PathCond(gcfg)
-        apps = [n for n in gcfg.nodes if n.kind == "stmt" and isinstance(n.ast, ast.Expr) and isinstance(n.ast.value, ast.Call)
-                and isinstance(n.ast.value.func, ast.Attribute) and n.ast.value.func.attr == "append" and n.id in gcfg.reachable()]
-        ctx.require(len(apps) == 2, f"{eng}._is_cal_gt: expected two append statements")
-        for n in apps:
-            var = unparse(n.ast.value.args[0])
-            r = gpc.reach(n.id).drop_unused()
-            nones = [a for a in r.atoms if a.endswith(" is None")]
-            ok = len(nones) == 2 and set(r.atoms) == set(nones) and r.equiv(~BF.var(nones[0]) & ~BF.var(nones[1]))
-            ctx.check("R4", ok, f"{eng}._is_cal_gt: `{var}` is compared iff neither side is None", f"{eng}._is_cal_gt: fields are filtered by truthiness (a calendar value of 0, e.g. week 0, is dropped from the future guard)",
-                      f"`{var}` collected when {r.to_dnf()}", loc=gt.loc(n.ast), witness={"old": "2021.05.3", "pattern": "YYYY.0W.INC0", "date": "2021-01-02"})
+        none_filter_rule(ctx, eng, "R4")
 
     # ---------------------------------------------------------------- R5
     from checks.c02 import field_domains, part_tables
@@ -295,3 +283,24 @@ def run(ctx) -> None:
     ctx.check("R6", ok, "_validate_release_tag returns only for None or an accepted value", "cli._validate_release_tag: accepts other tag values", ex.to_dnf(), loc=vt.loc())
     for root in ("cli.test", "cli.update"):
         shapes.check_passthrough(ctx, "R6", root, "cli._validate_release_tag", {"tag": "tag"})
+
+
+def none_filter_rule(ctx, eng: str, rule: str) -> None:
+    """<eng>._is_cal_gt: a field takes part in the comparison iff it is not None on both sides (0 is a value)."""
+    prog, cfgs = ctx.prog, ctx.cfgs
+    gt = prog.function(f"{eng}._is_cal_gt")
+    ctx.visit(gt.fq)
+    # a field takes part in the comparison iff it is not None on both sides (0 is a value: week 0)
+    gcfg = cfgs.get(gt.fq)
+    gpc = PathCond(gcfg)
+    apps = [n for n in gcfg.nodes if n.kind == "stmt" and isinstance(n.ast, ast.Expr) and isinstance(n.ast.value, ast.Call)
+            and isinstance(n.ast.value.func, ast.Attribute) and n.ast.value.func.attr == "append" and n.id in gcfg.reachable()]
+    ctx.require(len(apps) == 2, f"{eng}._is_cal_gt: expected two append statements")
+    for n in apps:
+        var = unparse(n.ast.value.args[0])
+        r = gpc.reach(n.id).drop_unused()
+        nones = [a for a in r.atoms if a.endswith(" is None")]
+        ok = len(nones) == 2 and set(r.atoms) == set(nones) and r.equiv(~BF.var(nones[0]) & ~BF.var(nones[1]))
+        ctx.check(rule, ok, f"{eng}._is_cal_gt: `{var}` is compared iff neither side is None", f"{eng}._is_cal_gt: fields are filtered by truthiness (a calendar value of 0, e.g. week 0, is dropped from the future guard)",
+                  f"`{var}` collected when {r.to_dnf()}", loc=gt.loc(n.ast), witness={"old": "2021.05.3", "pattern": "YYYY.0W.INC0", "date": "2021-01-02"})
+
